@@ -125,7 +125,7 @@ impl Gen {
         } else if r < 60 {
             self.pick(&WORDS).to_string()
         } else if r < 80 {
-            self.pick(&["!", "{", "}", "if", "then", "fi", "else"]).to_string()
+            self.pick(&["!", "{", "}", "if", "then", "fi", "else", "do", "done", "while"]).to_string()
         } else if r < 92 {
             self.pick(&["|", ";", "&&", "||", ">", "<"]).to_string()
         } else {
@@ -182,6 +182,14 @@ impl Gen {
             self.list(depth - 1, out);
             out.push(";".into());
             out.push("}".into());
+        } else if r >= 95 {
+            out.push(self.pick(&["while", "until"]).to_string());
+            self.list(depth - 1, out);
+            out.push(";".into());
+            out.push("do".into());
+            self.list(depth - 1, out);
+            out.push(";".into());
+            out.push("done".into());
         } else {
             out.push("if".into());
             self.list(depth - 1, out);
